@@ -182,9 +182,6 @@ Print Assumptions C01_mapcar_values_refuted.
 Theorem C01_setq_values_refuted : fst (runM 60 w_setq_values) <> fst (runS 60 w_setq_values) /\ guardb 60 w_setq_values = false.
 Proof. exact setq_values_refuted. Qed.
 Print Assumptions C01_setq_values_refuted.
-Theorem C01_or_values_refuted : fst (runM 60 w_or_values) <> fst (runS 60 w_or_values) /\ guardb 60 w_or_values = false.
-Proof. exact or_values_refuted. Qed.
-Print Assumptions C01_or_values_refuted.
 Theorem C01_too_few_arguments_refuted :
   fst (runM 60 w_short_args) = Ok (VList [VInt 1; VSym "x"]) /\ fst (runS 60 w_short_args) = Er EArity /\ guardb 60 w_short_args = false.
 Proof. exact too_few_arguments_refuted. Qed.
@@ -234,3 +231,13 @@ Theorem C01_dostar_inits_like_letstar : forall m ev st sc x e s bs,
     ev_inits_seq m ev (snd (alloc st1 [(x, a)])) ((List.length (frames st1), 1) :: sc) bs)).
 Proof. exact dostar_inits_like_letstar. Qed.
 Print Assumptions C01_dostar_inits_like_letstar.
+
+(* or (repo_fixes/C01-14): a form that is not the last is judged by and contributes its primary value, in every mode
+   (with C01_and_or_short_circuit: or stops at the first form whose primary value is not nil and returns that value). *)
+Theorem C01_or_step_same : forall m v, or_step m v = Ok (if is_nil (primary v) then None else Some (primary v)).
+Proof. exact or_step_same. Qed.
+Print Assumptions C01_or_step_same.
+Theorem C01_or_takes_primary_value :
+  forallb (fun m => match fst (run m 60 w_or_values) with Ok (VList [VInt 5; VNil]) => true | _ => false end) [Slip; Ref; Chk] = true.
+Proof. exact or_takes_primary_value. Qed.
+Print Assumptions C01_or_takes_primary_value.
